@@ -68,6 +68,9 @@ func history(k int, forced []int) {
 		sx.Reach("no-correlation")
 	}
 	seenSrc, seenDst := false, false
+	// the destination node's exporter may list the elements of its records in
+	// another order than the source node's (chosen once, when it first reports)
+	dstOrder := -1
 	// the merge combines the record that created the flow with the first record
 	// of the other node (the one that triggers the correlation)
 	var lastSrc, lastDst *sideRec
@@ -123,8 +126,16 @@ func history(k int, forced []int) {
 			continue
 		}
 		s := &sideRec{isSrc: ev == 0}
-		s.rich = sx.Choose("namespaceAndNodeNonEmpty", 2) == 1
-		s.hasCIP = sx.Choose("clusterIPNonZero", 2) == 1
+		// the record's optional correlated fields: all empty / zero, or all set
+		// (the merge treats each field on its own; quick tier explores the two
+		// extremes, thorough every combination)
+		if sx.Tier() > 0 {
+			s.rich = sx.Choose("namespaceAndNodeNonEmpty", 2) == 1
+			s.hasCIP = sx.Choose("clusterIPNonZero", 2) == 1
+		} else {
+			s.rich = sx.Choose("optionalCorrelatedFieldsSet", 2) == 1
+			s.hasCIP = s.rich
+		}
 		r := agg.Rec{Key: key, FlowType: flowType, EgressAction: egress, IngressAction: ingress, TCPState: "ESTABLISHED", End: sx.U32("flowEndSeconds")} // the two nodes' clocks and export times are not ordered
 		r.ServicePort = sx.U16("servicePort")
 		r.IngressPriority = sx.I32("ingressPriority")
@@ -137,6 +148,10 @@ func history(k int, forced []int) {
 				r.SrcNS, r.SrcNode = "ns1", "node1"
 			}
 		} else {
+			if dstOrder < 0 {
+				dstOrder = sx.Choose("destinationNodeListsElementsInAnotherOrder", 2)
+			}
+			r.AltOrder = dstOrder == 1
 			r.DstPod = "pod2"
 			if s.rich {
 				r.DstNS, r.DstNode = "ns2", "node2"
